@@ -76,7 +76,7 @@ func (m *MUBoth) UnmarshalJSON(b []byte) error { m.Raw = string(b); return nil }
 // TMK is a map key type with text methods
 type TMK struct{ K string }
 
-func (k TMK) MarshalText() ([]byte, error) { return []byte("k_" + k.K), nil }
+func (k TMK) MarshalText() ([]byte, error)  { return []byte("k_" + k.K), nil }
 func (k *TMK) UnmarshalText(b []byte) error { k.K = strings.TrimPrefix(string(b), "k_"); return nil }
 
 var leafTypes = map[string]reflect.Type{
